@@ -266,6 +266,32 @@ ART_EXT = {"json": "json", "yaml": "yaml", "yamlmulti": "yaml", "toml": "toml"}
 OLD_ARTIFACT = ("# artifact of an earlier, longer build\n" * 200).encode()
 
 
+# Values no format can represent and that have no literal on the wire: functions and modules. Through `convert <fmt>`
+# in a program each must be an error (the property: "never silently dropped, defaulted or altered").
+UNREPRESENTABLE = [("function-in-tuple", "{a = 1, f = func (x) => x}"), ("function-in-list", "[func (x) => x]"), ("function-alone", "func (x) => x"),
+                   ("module-in-tuple", "{m = module {a = 1} => (r) { let r = mod.a; }}"), ("function-nested", "{o = {l = [1, func (x) => x]}}")]
+
+
+def work_unrepresentable(chunk):
+    srv = core.worker_server()
+    hist = {}
+    viol = []
+    for name, expr in chunk:
+        for fmt in FORMATS:
+            rs = srv.req({"op": "eval", "src": "let v = %s;\nlet s = convert %s v;" % (expr, fmt)})
+            if "err" in rs:
+                oc = "err=err"
+            elif "ok" in rs:
+                oc = "SILENTLY-ALTERED"
+                viol.append((fmt, name, dict(rs["ok"]["t"]).get("s") if isinstance(rs["ok"], dict) else None))
+            else:
+                oc = "CRASH"
+                viol.append((fmt, name, rs))
+            k = "unrepresentable-%s:%s" % (fmt, oc)
+            hist[k] = hist.get(k, 0) + 1
+    return {"evals": len(chunk) * len(FORMATS), "hist": hist, "viol_unrep": viol, "viol": [], "sample": None}
+
+
 def artifact_values():
     """the sub-family sent through real builds: every scalar in every position, the pool of
     format-significant strings at top level, as tuple value and as key, the short chains, the mixed
@@ -382,6 +408,16 @@ def run(ctx):
     for part in core.pmap_gen(work_source, src_vals, chunk=150):
         absorb(part)
 
+    for part in core.pmap(work_unrepresentable, UNREPRESENTABLE, chunk=1):
+        absorb(part)
+        for fmt, name, got in part["viol_unrep"]:
+            kind = name.split("-")[0]
+            sig = "%s:SILENTLY-ALTERED:%s-value" % (fmt, kind)
+            if sig in ctx.violations:
+                ctx.violations[sig]["count"] += 1
+                continue
+            ctx.violation(sig, "%s of a value holding a %s succeeds and writes %r" % (fmt, kind, got),
+                          {"kind": "unrepresentable", "fmt": fmt, "name": name, "output": got})
     art_vals = list(artifact_values())
     for part in core.pmap(work_artifact, art_vals, chunk=12):
         absorb(part)
@@ -445,6 +481,13 @@ def run(ctx):
 
 
 def replay(case):
+    if case.get("kind") == "unrepresentable":
+        core._WORKER_SERVER = None
+        part = work_unrepresentable([x for x in UNREPRESENTABLE if x[0] == case["name"]])
+        core.worker_server().close()
+        core._WORKER_SERVER = None
+        vs = [v for v in part["viol_unrep"] if v[0] == case["fmt"]]
+        return not vs, {"violations": vs}
     if case.get("route") == "artifact":
         part = work_artifact([("replay", case["val"])])
         vs = [v for v in part["viol"] if v[0] == case["fmt"]]
